@@ -11,6 +11,7 @@ from mc.core import Fail, Outcome, Sub, run_subs
 PROPERTY = "C11"
 ASSUMPTIONS = [
     "alphabet: elements {C,O} (x hcount {0,1} for the estimate), charge 0, bond orders {1,2}",
+    "sparse annotation (attributes with the documented default value - charge 0, order 1.0 - omitted on some atoms / bonds) is required not to change the exact analysis; the estimate declares no defaults and is judged on fully annotated graphs only",
     "exact analysis of a disconnected graph = per-component automorphisms, count = product, component swaps excluded (as documented)",
     "the estimate must be a coarsening of the per-component exact orbits (and hence is also allowed to merge across components)",
     "clause (c) (symmetry pruning during rule application) is decided by the rule-application layer of this check on synthetic rule x host families and on the corpus pairs of C03",
@@ -90,6 +91,24 @@ def relabelings(G):
         yield H
 
 
+def sparse_variants(G):
+    """the same graph with default-valued attributes omitted: 'charge' (0) on every other atom, on all atoms; 'order' (1.0) on every other single bond"""
+    nodes = sorted(G.nodes)
+    for name, drop_nodes, drop_edges in (("charge_alternating", nodes[::2], False), ("charge_all", nodes, False), ("order_alternating", [], True), ("both", nodes[1::2], True)):
+        H = G.copy()
+        for v in drop_nodes:
+            if H.nodes[v].get("charge") == 0:
+                del H.nodes[v]["charge"]
+        if drop_edges:
+            k = 0
+            for u, v in sorted(H.edges):
+                if H[u][v].get("order") == 1.0:
+                    if k % 2 == 0:
+                        del H[u][v]["order"]
+                    k += 1
+        yield name, H
+
+
 def nk(a, b):
     return a["element"] == b["element"] and a["charge"] == b["charge"]
 
@@ -146,6 +165,14 @@ def check_graph(case):
             if split:
                 fails.append(Fail("estimate_splits_orbit", f"{cfgname}: {sorted(map(sorted, eo))}", f"coarsening of {sorted(map(sorted, orb_cfg))}", key_extra=cfgname))
                 break
+        if pi <= 1:
+            # sparse annotation: attributes that have the documented default value (charge 0, order 1.0) left out on some atoms / bonds
+            for sname, H in sparse_variants(G):
+                b = Automorphism(H)
+                ncalls += 1
+                if b.n_automorphisms != n_want or {frozenset(o) for o in b.orbits} != orb_want:
+                    fails.append(Fail("sparse_annotation", f"{sname}: {b.n_automorphisms} automorphisms, orbits {sorted(map(sorted, b.orbits))}", f"{n_want}, {sorted(map(sorted, orb_want))} (as with every default written out)", key_extra=sname))
+                    break
         if pi == 0:
             e2 = estimate_automorphism_groups(G)
             if {frozenset(o) for o in e2.orbits} != {frozenset(o) for o in AutoEst(G).fit().orbits}:
